@@ -247,6 +247,9 @@ def run_sequences(shard, ctx, env, rng):
             steps.append((status, reuse, bool(rng.getrandbits(1)) if rng.random() < 0.2 else False))
         hist = []
         nontriv = False
+        if len(env.mod.log) > 5000:
+            env.mod.log = []
+            del env.injected[:-4]
         env.static_sense = bytearray(252) if s % 3 == 1 else None
         kept = None  # (exception, values, text) of the previous CHECK CONDITION
         for pos, (status, reuse, raw) in enumerate(steps):
